@@ -106,9 +106,13 @@ class WriterRecord:
                 raise AnalysisError(rule, self.qual, 'record is not built from one unconditional dict literal')
             self.literal = lits[0].value
             n_ok += 1
+            on_path = set()
             for e in p.events:
                 if e.kind == 'store' and e.target == name and len(e.keys) == 1 and isinstance(e.keys[0], ast.Constant):
                     self.optional[e.keys[0].value] = e.node.value
+                    on_path.add(e.keys[0].value)
+            # keys stored on EVERY writing path (e.g. in both arms of an if / else) are written unconditionally
+            self.always = on_path if getattr(self, 'always', None) is None else (self.always & on_path)
         if n_ok == 0 or self.literal is None:
             raise AnalysisError(rule, self.qual, 'no writing path found')
         self.keys = [k.value for k in self.literal.keys if isinstance(k, ast.Constant)]
@@ -146,6 +150,7 @@ def check_writer_schema(chk, rule, rec: WriterRecord, schema_file: str, item_pat
                     f'written key {k!r} has a JSON type the schema {schema_file} allows',
                     f'{schema_file}: ' + '; '.join(sub))
     rest = [pr for pr in problems if not any(pr.startswith(k + c) for k in rec.keys + list(rec.optional) for c in ':.[')]
+    rest = [pr for pr in rest if not any(f'required key {k!r} is not written unconditionally' in pr for k in (getattr(rec, 'always', None) or ()))]
     chk.require(not rest, rule, rec.where, rec.qual, f'record vs {schema_file}',
                 'every required key of the schema is written unconditionally', '; '.join(rest))
     chk.require(not unknown_keys, rule, rec.where, rec.qual, f'keys not in {schema_file}: {unknown_keys}',
